@@ -188,6 +188,31 @@ def proof_gate(prop, pins_file=None):
     return res
 
 
+def coqchk(prop, timeout=1500):
+    """thorough tier: re-check the property's compiled theorems (and everything they depend on) with
+    Coq's independent checker and read the axioms / unsafe features it reports"""
+    rc, out = sh(["timeout", str(timeout), "coqchk", "-o", "-silent", "-Q", "theories", "GV",
+                  "GV.Properties." + prop], cwd=COQ, timeout=timeout + 60)
+    res = {"ran": True, "ok": rc == 0, "axioms": [], "problems": []}
+    m = re.search(r"\* Axioms:(.*?)\n\s*\n\* Constants/Inductives relying on type-in-type:(.*?)\n\s*\n"
+                  r"\* Constants/Inductives relying on unsafe \(co\)fixpoints:(.*?)\n\s*\n"
+                  r"\* Inductives whose positivity is assumed:(.*?)\n", out + "\n\n", flags=re.S)
+    if rc != 0 or not m:
+        res["ok"] = False
+        res["problems"].append("coqchk failed or its summary could not be read: " + out[-500:])
+        return res
+    ax = [a.strip() for a in m.group(1).strip().splitlines() if a.strip() and a.strip() != "<none>"]
+    res["axioms"] = ax
+    for a in ax:
+        if not any(a.endswith(k.split(".")[-1]) or k in a for k in ALLOWED_AXIOMS):
+            res["problems"].append("coqchk reports an axiom outside the allow-list: " + a)
+    for idx, what in ((2, "type-in-type"), (3, "unsafe fixpoints"), (4, "assumed positivity")):
+        if m.group(idx).strip() != "<none>":
+            res["problems"].append("coqchk reports %s: %s" % (what, m.group(idx).strip()[:200]))
+    res["ok"] = not res["problems"]
+    return res
+
+
 def split_pins(txt):
     """pins file: header (Require lines) up to the first '(* PIN name *)' marker, then
     blocks 'Check name : stmt.  Print Assumptions name.'"""
